@@ -27,6 +27,7 @@ import (
 	"github.com/ajitpratap0/GoSQLX/pkg/sql/parser"
 	"github.com/ajitpratap0/GoSQLX/pkg/sql/security"
 	"github.com/ajitpratap0/GoSQLX/pkg/sql/tokenizer"
+	"github.com/ajitpratap0/GoSQLX/pkg/transform"
 
 	"verif/sim/canon"
 	"verif/sim/gen"
@@ -68,6 +69,7 @@ const (
 	ParserPooledOptions
 	ParserPositions
 	ParseCtxCancelled
+	TransformFromSQL
 	NKinds
 )
 
@@ -76,7 +78,7 @@ var names = [...]string{"tokenize-direct", "tokenize-pooled", "gosqlx.Parse", "g
 	"parser.ValidateBytes", "parser.ParseBytesWithTokens", "parser.ParseWithDialect", "AST.SQL+Format", "formatter.Format",
 	"gosqlx.Extract*", "security.ScanSQL", "security.Scan", "linter.LintString", "errors.SuggestKeyword", "observe-stats",
 	"monitor.Record*", "ast.SetSpan/GetSpan", "Parser(strict).ParseFromModelTokens", "GetParser+ApplyOptions+Parse+PutParser",
-	"Parser.ParseFromModelTokensWithPositions", "gosqlx.ParseWithContext(cancelled at poll k)"}
+	"Parser.ParseFromModelTokensWithPositions", "gosqlx.ParseWithContext(cancelled at poll k)", "transform.Apply(AddWhereFromSQL/AddJoinFromSQL rule values shared across calls)"}
 
 func (k Kind) String() string { return names[k] }
 
@@ -127,7 +129,7 @@ func Gen(src *tape.Source, enabled []Kind) Op {
 		o.SQL = g.Any()
 		o.SQL2 = g.Any()
 	case Observe, Monitor:
-	case Extract, ScanTree, TreeSQL, Span:
+	case Extract, ScanTree, TreeSQL, Span, TransformFromSQL:
 		o.SQL = g.Valid()
 	default:
 		o.SQL = g.Any()
@@ -157,6 +159,11 @@ func sortedSet(xs []string) string {
 	sort.Strings(ys)
 	return canon.Of(ys)
 }
+
+var (
+	sharedWhereRule = transform.AddWhereFromSQL("tenant_id = 42 AND deleted_at IS NULL")
+	sharedJoinRule  = transform.AddJoinFromSQL("LEFT JOIN tenants tn ON tn.id = t.tenant_id")
+)
 
 var theLinter = linter.New(
 	whitespace.NewTrailingWhitespaceRule(),
@@ -339,6 +346,24 @@ func (o Op) Exec(hold bool) (res string, held []Held) {
 		}
 		_ = monitor.GetMetrics()
 		res = "monitored"
+	case TransformFromSQL:
+		// rule values are built once and applied to many trees, as the package doc shows
+		a, err := gosqlx.Parse(o.SQL)
+		if err != nil || len(a.Statements) == 0 {
+			res = canon.Err(err)
+			break
+		}
+		var aerr error
+		switch o.Flag {
+		case 0, 1:
+			aerr = transform.Apply(a.Statements[0], sharedWhereRule)
+		case 2:
+			aerr = transform.Apply(a.Statements[0], sharedJoinRule)
+		default:
+			aerr = transform.Apply(a.Statements[0], sharedWhereRule, sharedJoinRule)
+		}
+		res = treeCanon(a, aerr)
+		keepTree(a)
 	case ParseCtxCancelled:
 		// Flag and the input length pick the poll at which the context turns done
 		a, err := gosqlx.ParseWithContext(simctx.New(1+(o.Flag*5+len(o.SQL))%14, context.Canceled), o.SQL)
